@@ -25,7 +25,7 @@ def run(tier, seed):
     if tier == "quick":
         cfg = cfg.replace("PrepOps <- Ops6Prep", "PrepOps <- Ops6PrepQuick")
     cfgb = open(tlc.SPECS / "MC_Startup_C06b.cfg").read()
-    return startup.family_check(PROP, tier, seed, [("C06 family, 3 components", cfg), ("C06 give-up family (waiters with a timeout of their own), 3 components", cfgb)], "Trace_C06",
+    rep = startup.family_check(PROP, tier, seed, [("C06 family, 3 components", cfg), ("C06 give-up family (waiters with a timeout of their own), 3 components", cfgb)], "Trace_C06",
                                 {"publish-res", "publish-fac", "found-published-before", "found-published-after-request", "miss-opt", "miss-nowait", "waiting", "gave-up"}, pick,
                                 "trees of <= 3 components whose start() (and prepare()) perform one step out of: publish (A, m) as a resource / right after an unrelated "
                                 "publication / as a sync factory / as an async factory / under two types / under the default name remapped through a `kind/m` alias; publish "
@@ -33,7 +33,14 @@ def run(tier, seed):
                                 "the gates (request before / after / in the same burst as the publication), enumerated by TLC; a seeded sample of the completing pairs and of "
                                 "the pairs in which a waiter must stay blocked is executed on asyncio and trio; non-trivial = at least two releases; distinct by (program, schedule)",
                                 ["publication names are read back from the surrounding context (not computed by the driver)"])
+    # recorded executions: what a component context was asked to publish against what it registered (types of a factory)
+    from .. import suitectx
+    suitectx.add_to(rep, PROP)
+    return rep
 
 
 def replay(scenario):
+    if "recorded" in scenario:
+        from .. import suitectx
+        return suitectx.replay(PROP, scenario)
     return startup.replay_case(PROP, "Trace_C06", scenario)
